@@ -118,7 +118,7 @@ def case_strategy(draw, max_ops):
     # the output mode filters dialect fields only: routing and effects are the same in all of them
     mode = draw(st.sampled_from(["sql", "sql"] + MODES))
     return {"tables": tables, "ops": ops, "prefix": draw(st.integers(0, max(0, len(ops)))), "undefined": undefined,
-            "layout": draw(gen.layout(max_len=50)), "mode": mode}
+            "layout": draw(gen.layout(max_len=50)), "mode": mode, "norm": draw(st.integers(0, 3)) == 0}
 
 
 def target(case, op):
@@ -290,7 +290,7 @@ class C04(Prop):
             "(incl. a schema-less twin) followed by a history of 0..8 (thorough 0..14) ALTER TABLE / CREATE INDEX "
             "statements, each naming its target through a re-spelled key (case change, \"..\", [..], `..`): ADD column, "
             "DROP/RENAME/MODIFY/ALTER COLUMN, ADD [CONSTRAINT] PRIMARY KEY/UNIQUE/CHECK/DEFAULT..FOR/FOREIGN KEY, "
-            "[UNIQUE] INDEX with ASC/DESC/NULLS; optionally one statement naming an undefined table; parsed in a drawn output mode "
+            "[UNIQUE] INDEX with ASC/DESC/NULLS; optionally one statement naming an undefined table; parsed in a drawn output mode and, one case in four, with normalize_names=True "
             "(sql twice as likely as each of the 15); "
             "non-trivial = >= 2 tables sharing a name and >= 1 operation addressed through a re-spelled key; "
             "distinct = SHA-1 of the case")
@@ -325,7 +325,12 @@ class C04(Prop):
         mode = case.get("mode", "sql")
         skey = "dataset" if mode == "bigquery" else "schema"
         tag = "%s (output_mode=%s)" % (tag, mode)
-        r = loader.try_parse(ddl, output_mode=mode)
+        # tables and columns are declared undelimited; only the references of the ALTER / INDEX statements are re-spelled, so
+        # the routing is the same under normalize_names=True (names recorded from those statements lose their delimiters)
+        norm = bool(case.get("norm"))
+        if norm:
+            tag += " normalize_names=True"
+        r = loader.try_parse(ddl, output_mode=mode, normalize_names=norm)
         out.parses += 1
         if r[0] != "ok":
             out.fail("exception", "%s: %s: %s on %r" % (tag, r[1], r[2], ddl))
@@ -342,7 +347,7 @@ class C04(Prop):
                 if e.get("table_name") != t["name"] or e.get(skey) != t["schema"]:
                     out.fail("table-identity", "%s: expected %r.%r got %r.%r" % (tag, t["schema"], t["name"], e.get(skey), e.get("table_name")))
                 if not m["touched"]:
-                    base = loader.parse(render_script([table_tokens(t)], None), output_mode=mode)
+                    base = loader.parse(render_script([table_tokens(t)], None), output_mode=mode, normalize_names=norm)
                     out.parses += 1
                     if e != base[0]:
                         out.fail("untouched-table-changed", "%s: table %r.%r was not named by any statement but differs; %r" % (tag, t["schema"], t["name"], ddl))
